@@ -110,13 +110,21 @@ pub(crate) struct TxInner<'tx> {
 
 impl<'tx> Tx<'tx> {
     pub(crate) fn new(db: &'tx DB, writable: bool) -> Result<Tx<'tx>> {
+        #[cfg(feature = "verif-hooks")]
+        crate::verif_hooks::emit("begin:before_lock", &[writable as u64], &[]);
         let lock = match writable {
             true => TxLock::Rw(db.inner.file.lock()?),
             false => TxLock::Ro(db.inner.mmap_lock.read()?),
         };
+        #[cfg(feature = "verif-hooks")]
+        crate::verif_hooks::emit("begin:after_lock", &[writable as u64], &[]);
         let mut freelist = db.inner.freelist.lock()?.clone();
+        #[cfg(feature = "verif-hooks")]
+        crate::verif_hooks::emit("begin:after_freelist", &[writable as u64], &[]);
         let mut meta = db.inner.meta()?;
         debug_assert!(meta.valid());
+        #[cfg(feature = "verif-hooks")]
+        crate::verif_hooks::emit("begin:after_meta", &[writable as u64, meta.tx_id], &[]);
         {
             let mut open_ro_txs = db.inner.open_ro_txs.lock().unwrap();
             if writable {
@@ -130,7 +138,17 @@ impl<'tx> Tx<'tx> {
                 open_ro_txs.push(meta.tx_id);
                 open_ro_txs.sort_unstable();
             }
+            #[cfg(feature = "verif-hooks")]
+            {
+                // [writable, tx_id, n_readers, readers..., free list dump]
+                let mut v = vec![writable as u64, meta.tx_id, open_ro_txs.len() as u64];
+                v.extend(open_ro_txs.iter().cloned());
+                v.extend(freelist.verif_dump());
+                crate::verif_hooks::emit("tx_begin", &v, &[]);
+            }
         }
+        #[cfg(feature = "verif-hooks")]
+        crate::verif_hooks::emit("begin:after_register", &[writable as u64, meta.tx_id], &[]);
         let freelist = Rc::new(RefCell::new(TxFreelist::new(meta.clone(), freelist)));
 
         let data = db.inner.data.lock()?.clone();
@@ -306,12 +324,16 @@ impl<'tx> TxInner<'tx> {
                 self.pages = Pages::new(data, self.db.inner.pagesize);
             }
 
+            #[cfg(feature = "verif-hooks")]
+            crate::verif_hooks::emit("commit:before_data", &[self.meta.tx_id], &[]);
             // write the data to the file
             {
                 // freelist.pages is a BTreeMap so we're writing the pages in order to minmize
                 // the random seeks.
                 for (page_id, (ptr, size)) in freelist.pages.iter() {
                     let buf = unsafe { std::slice::from_raw_parts(ptr.as_ptr(), *size) };
+                    #[cfg(feature = "verif-hooks")]
+                    crate::verif_hooks::emit("write_page", &[*page_id, *size as u64], &[]);
                     file.seek(SeekFrom::Start(self.db.inner.pagesize * page_id))?;
                     file.write_all(buf)?;
                 }
@@ -341,15 +363,29 @@ impl<'tx> TxInner<'tx> {
                 m.tx_id = self.meta.tx_id;
                 m.hash = m.hash_self();
 
+                #[cfg(feature = "verif-hooks")]
+                crate::verif_hooks::emit("commit:before_header", &[self.meta.tx_id, meta_page_id], &[]);
                 file.seek(SeekFrom::Start(self.db.inner.pagesize * meta_page_id))?;
                 file.write_all(buf.as_slice())?;
             }
 
+            #[cfg(feature = "verif-hooks")]
+            crate::verif_hooks::emit("commit:before_sync", &[self.meta.tx_id], &[]);
             file.flush()?;
             file.sync_all()?;
 
+            #[cfg(feature = "verif-hooks")]
+            crate::verif_hooks::emit("commit:before_publish", &[self.meta.tx_id], &[]);
             let mut lock = self.db.inner.freelist.lock()?;
             *lock = freelist.inner.clone();
+            #[cfg(feature = "verif-hooks")]
+            {
+                let mut v = vec![self.meta.tx_id, self.meta.num_pages, self.meta.freelist_page, self.meta.root.root_page];
+                v.extend(lock.verif_dump());
+                crate::verif_hooks::emit("publish", &v, &[]);
+                drop(lock);
+                crate::verif_hooks::emit("commit:after_publish", &[self.meta.tx_id], &[]);
+            }
             Ok(())
         } else {
             unreachable!()
@@ -476,6 +512,8 @@ impl<'tx> TxInner<'tx> {
 
 impl<'tx> Drop for TxInner<'tx> {
     fn drop(&mut self) {
+        #[cfg(feature = "verif-hooks")]
+        crate::verif_hooks::emit("drop:before", &[self.lock.writable() as u64, self.meta.tx_id], &[]);
         if !self.lock.writable() {
             let mut open_txs = self.db.inner.open_ro_txs.lock().unwrap();
             let index = match open_txs.binary_search(&self.meta.tx_id) {
@@ -483,6 +521,12 @@ impl<'tx> Drop for TxInner<'tx> {
                 _ => return, // this shouldn't happen, but isn't the end of the world if it does
             };
             open_txs.remove(index);
+            #[cfg(feature = "verif-hooks")]
+            {
+                let mut v = vec![self.meta.tx_id, open_txs.len() as u64];
+                v.extend(open_txs.iter().cloned());
+                crate::verif_hooks::emit("tx_end_ro", &v, &[]);
+            }
         }
     }
 }
